@@ -142,16 +142,44 @@ def compute_twice(case, sizes2=None, orient=None):
     if orient is not None:
         c["orient"] = orient
     b, out = c13.build_output(c)
+    # colour annotations on object nodes, derived from the case itself (deterministic): every third case
+    # colours one or two internal nodes, so that the colour features the first run writes matter to the second
+    import hashlib
+    h = int(hashlib.sha1(json.dumps([c["S"], c["O"], c["sol"]], sort_keys=True).encode()).hexdigest(), 16)
+    internal = sorted(p for p, n in b.onode.items() if not n.is_leaf())
+    if internal and h % 3 == 0:
+        b.onode[internal[h % len(internal)]].add_feature("color", "FF0000")
+        if len(internal) > 2 and h % 2 == 0:
+            b.onode[internal[(h // 7) % len(internal)]].add_feature("color", "0000FF")
     params = c13.draw_params(c)
     res = []
     old = tex.measure
     try:
         for _ in range(2):
             tex.measure = c13.Stub(sizes2 if sizes2 is not None else c["sizes2"])
-            res.append(canon_layout(b, layout.compute(out, params)))
+            lay = layout.compute(out, params)
+            canon = canon_layout(b, lay)
+            ident = c13.anchor_ids(b, lay)
+            cols = sorted([list(ident(k)), getattr(br, "color", None)] for sl in lay.values() for k, br in sl.branches.items())
+            res.append(Laid(canon, cols))
     finally:
         tex.measure = old
     return res
+
+
+class Laid(list):
+    """canonical layout (a list, as before) that also remembers the colour of every branch; two runs are
+    the same only if geometry AND colours agree"""
+
+    def __init__(self, canon, cols):
+        super().__init__(canon)
+        self.cols = cols
+
+    def __eq__(self, other):
+        return list.__eq__(self, other) and getattr(other, "cols", self.cols) == self.cols
+
+    def __ne__(self, other):
+        return not self.__eq__(other)
 
 
 def swap_sizes2(sizes2):
